@@ -220,6 +220,19 @@ chk(
     "Trusted: the harness's record of names (model of the tree incl. everything that ever existed in the session).",
 )
 
+chk(
+    "C08", "wdverif/props/c08.py",
+    "offline trace checker over the consumer's (item, virtual time) log of the real InotifyBuffer/Inotify over a simulated kernel and a virtual clock; directed line holds (zero-duration and deadline-spanning)",
+    "Exploration: every native sequence up to length 4 (thorough 5) over {F1,T1,F2,T2,X,Y,S(nameless),IGNORED} x every cut into read "
+    "batches x gaps {0,d-e,d,d+e,2d} (quick: strided) + random longer sequences with large/small read sizes and an early close; the "
+    "real Inotify.read_events/_parse_event_buffer/InotifyBuffer._group_events/DelayedQueue run over fake descriptors; checker: every "
+    "native event exactly once (alone or in one pair, never both), kernel order, pair whenever the second half is released before "
+    "first-half-insert + delay, unmatched first half alone and not before the delay. Holds park the reader / consumer at every "
+    "executed line of _group_events, remove, put, run, get.",
+    "Trusted: the simulated kernel (record packing per inotify(7), whole records per read) and the virtual clock; fidelity to the real "
+    "kernel is cross-checked by the small-read modes of C01/C03 on real events.",
+)
+
 _PENDING = "check not built yet in this round of work (planned in DESIGN.md section 3); not claimed until its monitor exists"
 _built = {c["id"] for c in CHECKS}
 for n in range(1, 21):
